@@ -57,7 +57,7 @@ class Probes:
         return v
 
     # -- contract oracle: c(kind, owner, idx, time[, __old__])
-    def c(self, ck, owner, idx, time, old=0):
+    def c(self, ck, owner, idx, time, old=0, nbox=0):
         self.cnt += 1
         ok = self.cnt != self.cfail
         if old == 0:          # precondition: no __old__ in scope
@@ -66,6 +66,12 @@ class Probes:
             d = -1
         else:
             d = old.x
+            # __old__ holds SHALLOW copies: the inner list of box is shared with the live context
+            try:
+                if len(old.box[0]) != nbox:
+                    d = -2
+            except Exception:
+                d = -3
         self.log.append(loge('cond', ck, owner, idx, d, 1 if ok else 0, time))
         return ok
 
